@@ -27,6 +27,9 @@ static void build(void) {
     "c0y x0 c0r j1 c0r j2", "c2y c2y x1 j0 c2r j2", "c0r c1r c2r j2 j1 j0", "c1y c1y j0 j1 c1y c1r j3 j2",
     /* finisher vs reaper races on one record */
     "c0y j0", "c0y t0", "c0y x0", "c2y x0 c2r j1", "c4y t0 c4r j1", "c0y d0 c0r j1",
+    /* a record released by a thread that ended detached (detached while running / created detached) is re-used by a joinable thread
+       that finishes before it is joined: the record must stay intact until the late join */
+    "c0y x0 y y c0r c0r j2 j1", "cny y y c0r c0r j2 j1", "c0y x0 y y c0r y c0y j1 j2", "cny y c0y c0r y y j2 j1",
     /* release followed at once by reuse on the same worker */
     "c0r j0 c0r j1 c0r j2", "c1r j0 c1r j1 c3r j2 c3r j3", "c0y c0y j0 j1 c0y c0y j3 j2",
     /* sizes that are not a multiple of the page size: the rounded size decides the allocator class */
